@@ -480,3 +480,99 @@ def origins(fn, op_or_place, depth=8, _seen=None):
             if 1 <= local <= fn.nargs:
                 out.add('arg:%d' % local)
     return out
+
+
+def _operand_locals(node):
+    """All locals read by an rvalue / operand / call-argument list (structural walk over the JSON fact)."""
+    out = []
+
+    def walk(x):
+        if isinstance(x, list):
+            if len(x) == 2 and x[0] in ('c', 'm') and isinstance(x[1], list) and x[1] and isinstance(x[1][0], int):
+                out.append(x[1][0])
+                return
+            for y in x:
+                walk(y)
+    walk(node)
+    return out
+
+
+def _root_local(fn, operand):
+    """Follow plain copies/moves of an operand back to the local that is (re)defined more than once or by a call."""
+    seen = set()
+    while operand and operand[0] in ('c', 'm') and len(operand[1]) == 1:
+        l = operand[1][0]
+        if l in seen:
+            return l
+        seen.add(l)
+        ds = fn.defs.get(l, [])
+        if len(ds) == 1 and ds[0][0] == 'assign' and ds[0][1].node[2][0] == 'use' and ds[0][1].node[2][1][0] in ('c', 'm') and len(ds[0][1].node[2][1][1]) == 1:
+            operand = ds[0][1].node[2][1]
+            continue
+        return l
+    return None
+
+
+def cas_loop_fresh(R, fn, cas, key, why=''):
+    """LOOP-FRESH: in a compare_exchange retry loop, everything the `new` argument depends on (data and in-loop control) that reads the
+    loop-carried `current` value is computed inside the loop, i.e. is recomputed from the value the CAS will actually compare against.
+    A decision computed once before the loop is stale after the first failed CAS.  Returns None when `cas` is not in a loop."""
+    b0 = cas.b
+    fwd = set()
+    st = list(fn.succ(b0))
+    while st:
+        b = st.pop()
+        if b in fwd:
+            continue
+        fwd.add(b)
+        st.extend(fn.succ(b))
+    if b0 not in fwd:
+        return None
+    preds = fn.preds() if callable(getattr(fn, 'preds', None)) else None
+    # blocks that can reach the CAS block
+    back = set()
+    st = [b0]
+    rp = {}
+    for b in range(len(fn.blocks)):
+        for s_ in fn.succ(b):
+            rp.setdefault(s_, []).append(b)
+    while st:
+        b = st.pop()
+        if b in back:
+            continue
+        back.add(b)
+        st.extend(rp.get(b, []))
+    loop = fwd & back
+    E = _root_local(fn, cas.args[1])
+    if E is None:
+        return None
+    stale = []
+    seen = set()
+    work = list(_operand_locals(cas.args[2]))
+    # control: switches inside the loop
+    for b in loop:
+        t = fn.blocks[b]['t']
+        if t[0] == 'switch':
+            work.extend(_operand_locals(t[1]))
+    while work:
+        l = work.pop()
+        if l in seen or l == E:
+            continue
+        seen.add(l)
+        alldefs = [(k_, s_) for (k_, s_) in fn.defs.get(l, []) + fn.defs.get(('partial', l), []) if k_ != 'setdiscr']
+        defs_in = [s_ for (_, s_) in alldefs if s_.b in loop]
+        # the initial computation before the loop is fine when every retry path recomputes the local
+        refreshed = bool(defs_in) and fn.exists_path(cas, [cas], defs_in) is None
+        for kind, site in alldefs:
+            if refreshed and site.b not in loop:
+                continue
+            reads = _operand_locals(site.node[2]) if kind == 'assign' else _operand_locals(site.args)
+            rl = [_root_local(fn, ['c', [x]]) for x in reads]
+            if site.b not in loop and (E in reads or E in rl):
+                stale.append(site)
+            for x in reads:
+                if x != E:
+                    work.append(x)
+    R.ob('LOOP', key, not stale, 'every input of the CAS `new` value that reads the loop-carried current value is recomputed inside the retry loop%s; %s' % (
+        '' if not stale else ' -- computed once before the loop: ' + ', '.join(s.where for s in stale), why), cas.where, fn)
+    return not stale
